@@ -4,7 +4,7 @@
 //! stdin, one case per line:
 //!   `ex  <nthreads> <ev> <ev> ...`        explicit prefix, then a clean-up suffix until quiescence
 //!   `rnd <nthreads> <seed> <len>`         random enabled operations for `len` events, then clean-up
-//! events: `<t><op>` with op = l (lend) s (shared) g (get) d (drop loan) D (drop lender).
+//! events: `<t><op>` with op = l (lend) s (shared) g (get_mut) e (get_ref) d (drop loan) D (drop lender).
 //! An event lets thread t take its next step; the op is only used when t is idle.
 //!
 //! stdout per case: `<digest> <final obs> <flags> <stats> <executed events>`
@@ -27,6 +27,7 @@ static ALLOC: alloc_track::Tracking = alloc_track::Tracking;
 
 const SITE_IDLE: u32 = 40;
 const SITE_ACCESS: u32 = 41;
+const SITE_ACCESS_REF: u32 = 43;
 const SHARED_VAL: u64 = 0x5A5A_0001;
 const EXCL_VAL: u64 = 0x1000;
 
@@ -37,7 +38,8 @@ enum Op {
     Get = 2,
     DropLoan = 3,
     DropLender = 4,
-    Exit = 5,
+    GetRef = 5,
+    Exit = 6,
 }
 impl Op {
     fn letter(self) -> char {
@@ -47,6 +49,7 @@ impl Op {
             Op::Get => 'g',
             Op::DropLoan => 'd',
             Op::DropLender => 'D',
+            Op::GetRef => 'e',
             Op::Exit => 'x',
         }
     }
@@ -57,11 +60,12 @@ impl Op {
             'g' => Op::Get,
             'd' => Op::DropLoan,
             'D' => Op::DropLender,
+            'e' => Op::GetRef,
             _ => return None,
         })
     }
     fn from(n: usize) -> Op {
-        [Op::Lend, Op::Shared, Op::Get, Op::DropLoan, Op::DropLender, Op::Exit][n]
+        [Op::Lend, Op::Shared, Op::Get, Op::DropLoan, Op::DropLender, Op::GetRef, Op::Exit][n]
     }
 }
 
@@ -128,6 +132,22 @@ fn thread_body(w: Arc<World>, me: usize) {
                     None => 4,
                 }
             }
+            Op::GetRef => {
+                let loan = loans.last().expect("owns a loan");
+                match loan.get_ref() {
+                    Some((s, x)) => {
+                        yield_point(SITE_ACCESS_REF);
+                        if freed_now(&w) > 0 {
+                            w.bad.fetch_or(2, Ordering::SeqCst);
+                        }
+                        if *s != SHARED_VAL || *x < EXCL_VAL || *x > EXCL_VAL + 1_000_000 {
+                            w.bad.fetch_or(1, Ordering::SeqCst);
+                        }
+                        8
+                    }
+                    None => 9,
+                }
+            }
             Op::DropLoan => {
                 let loan = loans.pop().expect("owns a loan");
                 let before = freed_now(&w);
@@ -160,6 +180,7 @@ fn site_digit(s: Status) -> u128 {
     match s {
         Status::Parked(SITE_IDLE) => 8,
         Status::Parked(SITE_ACCESS) => 9,
+        Status::Parked(SITE_ACCESS_REF) => 11,
         other => other.code() as u128,
     }
 }
@@ -248,7 +269,7 @@ fn run_case(n: usize, mut src: Source, want_trace: bool) -> Outcome {
             }
             match op {
                 Op::Lend | Op::Shared => g.lown,
-                Op::Get | Op::DropLoan => ll[t] >= 1,
+                Op::Get | Op::GetRef | Op::DropLoan => ll[t] >= 1,
                 Op::DropLender => g.lown && g.borrows == 0,
                 Op::Exit => false,
             }
@@ -268,7 +289,7 @@ fn run_case(n: usize, mut src: Source, want_trace: bool) -> Outcome {
                         cands.push((t, Op::Get));
                         continue;
                     }
-                    for op in [Op::Lend, Op::Shared, Op::Get, Op::DropLoan, Op::DropLender] {
+                    for op in [Op::Lend, Op::Shared, Op::Get, Op::GetRef, Op::DropLoan, Op::DropLender] {
                         if enabled(t, op, &g, &loans_live) || rng.below(10) == 0 {
                             // lender drop is rare so that runs stay interesting for a while
                             if op == Op::DropLender && rng.below(4) != 0 {
@@ -318,9 +339,11 @@ fn run_case(n: usize, mut src: Source, want_trace: bool) -> Outcome {
                 hang = true;
             }
             let after = s.status(t);
-            // ghost bookkeeping from what the thread just did
-            match before {
-                Status::Parked(20) => {
+            // ghost bookkeeping from what the thread just did (the operation in progress is
+            // the one in the thread's mailbox; the site tells which step of it was executed)
+            let cur = Op::from(w.mailbox[t].load(Ordering::SeqCst));
+            match (cur, before) {
+                (Op::Lend, Status::Parked(20)) => {
                     g.borrows -= 1;
                     let r = w.res_pub[t].load(Ordering::SeqCst);
                     if r == 1 {
@@ -330,12 +353,13 @@ fn run_case(n: usize, mut src: Source, want_trace: bool) -> Outcome {
                         stats[2] += 1;
                     }
                 }
-                Status::Parked(24) => {
+                (Op::Shared, Status::Parked(24)) => {
                     g.borrows -= 1;
                     stats[7] += 1;
                 }
-                Status::Parked(21) => {
-                    if after == Status::Parked(SITE_ACCESS) {
+                // the load of an accessor of the Loan (whatever internal getter it uses)
+                (Op::Get | Op::GetRef, Status::Parked(21) | Status::Parked(24)) => {
+                    if after == Status::Parked(SITE_ACCESS) || after == Status::Parked(SITE_ACCESS_REF) {
                         stats[3] += 1;
                         if !g.llive {
                             flag("revoked", &mut flags);
@@ -344,13 +368,16 @@ fn run_case(n: usize, mut src: Source, want_trace: bool) -> Outcome {
                         stats[4] += 1;
                     }
                 }
-                Status::Parked(22) => {
-                    // a thread drops either a loan or the lender, told apart by its mailbox
-                    if Op::from(w.mailbox[t].load(Ordering::SeqCst)) == Op::DropLender {
-                        g.llive = false;
+                (Op::DropLender, Status::Parked(22)) => {
+                    g.llive = false;
+                    if after == Status::Parked(23) {
+                        stats[5] += 1;
                     } else {
-                        loans_live[t] -= 1;
+                        stats[6] += 1;
                     }
+                }
+                (Op::DropLoan, Status::Parked(22)) => {
+                    loans_live[t] -= 1;
                     if after == Status::Parked(23) {
                         stats[5] += 1;
                     } else {
